@@ -329,7 +329,6 @@ func c21CallDesc(ci ssa.CallInstruction, depth int) string {
 	return name + "(" + strings.Join(as, ",") + ")"
 }
 
-
 // c21Origin strips loads of single-assignment cells: a parameter or local that
 // is captured by a closure lives in an Alloc that is stored exactly once; a
 // load of that cell is the stored value.
@@ -1703,8 +1702,12 @@ func (c *Ctx) c21CheckExecuteProcessErr(fn *ssa.Function) {
 		}
 	}
 	arms := []arm{
-		{"ParseStatementParameters", 1, func(ci ssa.CallInstruction) bool { return c21IsGlobalFuncCall(ci, mx("lang"), "ParseStatementParameters") }},
-		{"castParameters", 1, func(ci ssa.CallInstruction) bool { return c21IsCallTo(ci, mx("lang"), "murexFuncDetails", "castParameters") }},
+		{"ParseStatementParameters", 1, func(ci ssa.CallInstruction) bool {
+			return c21IsGlobalFuncCall(ci, mx("lang"), "ParseStatementParameters")
+		}},
+		{"castParameters", 1, func(ci ssa.CallInstruction) bool {
+			return c21IsCallTo(ci, mx("lang"), "murexFuncDetails", "castParameters")
+		}},
 		{"Fork.Execute", 2, func(ci ssa.CallInstruction) bool { return c21IsCallTo(ci, mx("lang"), "Fork", "Execute") }},
 		{"GoFunctions[name]", 1, isDynOnGoFunctions(false)},
 		{"GoFunctions[\"exec\"]", 1, isDynOnGoFunctions(true)},
